@@ -5,7 +5,7 @@
    (ExtInv), only basic gates are emitted, extraction never reaches the error state, and it ends
    with identity wires and CircSem(c) proportional to the source. *)
 EXTENDS Extract, Simp
-CONSTANTS NQ, MAXLEN, ONEQ, TWOQ, PHS, STRAT, GAUSS
+CONSTANTS NQ, MAXLEN, ONEQ, TWOQ, PHS, STRAT, GAUSS, TEMPLATE
 VARIABLES c0, g, c, fr, gadgets, mode, u0
 vars == <<c0, g, c, fr, gadgets, mode, u0>>
 Qs == 0..(NQ - 1)
@@ -14,10 +14,13 @@ Alphabet == {ExGate(t, <<q>>, 0) : t \in ONEQ, q \in Qs} \cup {ExGate("ZPhase", 
             \cup {ExGate(t, <<p[1], p[2]>>, 0) : t \in TWOQ, p \in Pairs2}
 E0 == [n |-> NQ, gates |-> <<>>]
 Init == c0 = E0 /\ g = EmptyG /\ c = E0 /\ fr = <<>> /\ gadgets = {} /\ mode = "build" /\ u0 = <<>>
+\* TEMPLATE = <<>>: any gate of the alphabet at every position; otherwise position k draws from TEMPLATE[k]
+\* (deep circuits whose frontier needs Gaussian elimination, without enumerating all circuits of that depth)
+GateChoices(k) == IF TEMPLATE = <<>> THEN Alphabet ELSE IF k <= Len(TEMPLATE) THEN TEMPLATE[k] ELSE {}
 Build == /\ mode = "build" /\ Len(c0.gates) < MAXLEN
-         /\ \E x \in Alphabet : c0' = [c0 EXCEPT !.gates = Append(@, x)]
+         /\ \E x \in GateChoices(Len(c0.gates) + 1) : c0' = [c0 EXCEPT !.gates = Append(@, x)]
          /\ UNCHANGED <<g, c, fr, gadgets, mode, u0>>
-Start == /\ mode = "build" /\ mode' = "simp" /\ g' = ToGraph(c0, FALSE) /\ u0' = CircSem(c0)
+Start == /\ mode = "build" /\ (TEMPLATE = <<>> \/ Len(c0.gates) = Len(TEMPLATE)) /\ mode' = "simp" /\ g' = ToGraph(c0, FALSE) /\ u0' = CircSem(c0)
          /\ UNCHANGED <<c0, c, fr, gadgets>>
 SimpStep == /\ mode = "simp" /\ \E r \in SimpSteps(STRAT, g) : g' = r.g
             /\ UNCHANGED <<c0, c, fr, gadgets, mode, u0>>
@@ -62,6 +65,13 @@ DoPerm == /\ mode = "perm"
           /\ UNCHANGED <<c0, fr, gadgets, u0>>
 Next == Build \/ Start \/ SimpStep \/ Begin \/ DoPrepare \/ DoGadget \/ DoExtract("extract", "gauss")
         \/ DoExtract("extract2", "error") \/ DoGauss \/ DoPerm
+NoTemplate == <<>>
+CX(a, b) == ExGate("CNOT", <<a, b>>, 0)
+T1(q) == ExGate("T", <<q>>, 0)
+H1(q) == ExGate("HAD", <<q>>, 0)
+\* variations around  cx 0,1; t 1; h 1; cx 1,0; t 0; cx 1,0  (a two-vertex frontier with three neighbours)
+TmplGauss == << {CX(0, 1), CX(1, 0)}, {T1(1), T1(0)}, {H1(1), H1(0)}, {CX(1, 0), CX(0, 1)}, {T1(0), T1(1)}, {CX(1, 0), CX(0, 1), H1(0)} >>
+\* start only from complete template circuits
 ExtInv == mode \notin {"build", "error"} => ProjEq(Total(g, c), u0) /\ ~TIsZero(Total(g, c))
 BasicOnly == BasicOnlyC(c)
 NeverFails == mode # "error"
